@@ -230,7 +230,29 @@ def py_of(case):
                ("l.set('xy',%r); l.delete('xy')\n" % (case['prior'],)) if case.get('prior') is not None else '', case['value_repr']))
 
 
+def header_tags(ctx):
+    """tags of the header given a datatype through the API: the Gfa writes them with that datatype, one H line per tag"""
+    g = impl.gfapy()
+    for name, v, dt, text in [('xc', 'c', 'A', 'xc:A:c'), ('xj', [1, 2, 3], 'J', 'xj:J:[1, 2, 3]'), ('xf', 3, 'f', 'xf:f:3'),
+                              ('xh', 'hello', 'Z', 'xh:Z:hello'), ('xb', [1, 2, 300], 'B', 'xb:B:S,1,2,300'), ('xk', {'a': 1}, 'J', 'xk:J:{"a": 1}')]:
+        G = g.Gfa(version='gfa1')
+        r = impl.outcome(lambda: G.header.add(name, v, dt))
+        w = impl.outcome(lambda: (str(G).split('\n'), [str(x) for x in G.headers], str(G.header)))
+        case = {'kind': 'header', 'tag': name, 'value_repr': repr(v), 'declared': dt, 'vlevel': 1}
+        ctx.count(case, True)
+        if r[0] != 'ok' or w[0] != 'ok':
+            ctx.violation('failing-input', 'adding a header tag with a declared datatype raised', case, text, impl.outcome_name(r if r[0] != 'ok' else w))
+        elif w[1][0] != ['H\t' + text] or w[1][1] != ['H\t' + text] or w[1][2] != 'H\t' + text:
+            ctx.violation('failing-input', 'a header tag is not written with its declared datatype', case, 'H\t' + text, w[1],
+                          python="import gfapy\ng=gfapy.Gfa(version='gfa1')\ng.header.add(%r,%r,%r)\nprint(g); print(g.header)" % (name, v, dt))
+        else:
+            back = impl.outcome(lambda: g.Gfa(str(G)).header.get_datatype(name))
+            if back != ('ok', dt):
+                ctx.violation('failing-input', 'the written header tag reads back with another datatype', case, dt, back[1])
+
+
 def run(ctx, deep, model_ok):
+    header_tags(ctx)
     g = impl.gfapy()
     rng = ctx.rng
     vals = values(rng, deep)
